@@ -2285,8 +2285,6 @@ impl Server {
             _ => return Ok(RespFrame::error("ERR invalid key format")),
         };
         
-        let mut new_members = 0;
-        
         // Validate every pair before the first mutation: a refused ZADD adds nothing, and NaN is not a score
         for i in (2..parts.len()).step_by(2) {
             match &parts[i] {
@@ -2301,7 +2299,8 @@ impl Server {
             }
         }
         
-        // Process each score-member pair
+        // Collect the score-member pairs (validated above)
+        let mut score_members = Vec::with_capacity((parts.len() - 2) / 2);
         for i in (2..parts.len()).step_by(2) {
             let score = match &parts[i] {
                 RespFrame::BulkString(Some(bytes)) => {
@@ -2318,11 +2317,11 @@ impl Server {
                 _ => return Ok(RespFrame::error("ERR invalid member format")),
             };
             
-            // Add to sorted set 
-            if self.storage.zadd(db, key.clone(), member, score)? {
-                new_members += 1;
-            }
+            score_members.push((score, member));
         }
+        
+        // One storage call for the whole command: the key's deadline is tested once, not once per pair
+        let new_members = self.storage.zadd_many(db, key, score_members)? as i64;
         
         Ok(RespFrame::Integer(new_members))
     }
@@ -2340,20 +2339,17 @@ impl Server {
             _ => return Ok(RespFrame::error("ERR invalid key format")),
         };
         
-        let mut removed = 0;
-        
-        // Process each member
+        // Collect the members (invalid ones are skipped)
+        let mut members: Vec<&[u8]> = Vec::with_capacity(parts.len() - 2);
         for i in 2..parts.len() {
-            let member = match &parts[i] {
-                RespFrame::BulkString(Some(bytes)) => bytes.as_ref(),
+            match &parts[i] {
+                RespFrame::BulkString(Some(bytes)) => members.push(bytes.as_ref()),
                 _ => continue, // Skip invalid members
             };
-            
-            // Remove from sorted set
-            if self.storage.zrem(db, key, member)? {
-                removed += 1;
-            }
         }
+        
+        // One storage call for the whole command: the key's deadline is tested once, not once per member
+        let removed = self.storage.zrem_many(db, key, &members)? as i64;
         
         Ok(RespFrame::Integer(removed))
     }
@@ -2828,18 +2824,11 @@ impl Server {
             1
         };
         
-        // Pop members with atomic operations
+        // One storage call for the whole command: the key's deadline is tested once, not once per popped member
         let mut results = Vec::new();
-        for _ in 0..count {
-            let members = self.storage.zrange(db, key, 0, 0, false)?;
-            if let Some((member, score)) = members.into_iter().next() {
-                if self.storage.zrem(db, key, &member)? {
-                    results.push(RespFrame::from_bytes(member));
-                    results.push(RespFrame::from_string(score.to_string()));
-                }
-            } else {
-                break;
-            }
+        for (member, score) in self.storage.zpop(db, key, count, true)? {
+            results.push(RespFrame::from_bytes(member));
+            results.push(RespFrame::from_string(score.to_string()));
         }
         
         if results.is_empty() {
@@ -2876,18 +2865,11 @@ impl Server {
             1
         };
         
-        // Pop members with atomic operations
+        // One storage call for the whole command: the key's deadline is tested once, not once per popped member
         let mut results = Vec::new();
-        for _ in 0..count {
-            let members = self.storage.zrange(db, key, -1, -1, false)?;
-            if let Some((member, score)) = members.into_iter().next() {
-                if self.storage.zrem(db, key, &member)? {
-                    results.push(RespFrame::from_bytes(member));
-                    results.push(RespFrame::from_string(score.to_string()));
-                }
-            } else {
-                break;
-            }
+        for (member, score) in self.storage.zpop(db, key, count, false)? {
+            results.push(RespFrame::from_bytes(member));
+            results.push(RespFrame::from_string(score.to_string()));
         }
         
         if results.is_empty() {
